@@ -6,3 +6,4 @@ import e2e_props
 def run(ctx):
     ctx.assumptions.append('tie T samples real client+server runs on the deterministic IO provider with an adversarial network; it validates the model/oracles, it is not the proof')
     e2e_props.run_family(ctx, 'mixed', [e2e.o_c01, e2e.o_c02_term], 48, 1500)
+    e2e_props.run_family(ctx, 'apis', [e2e.o_c01, e2e.o_c02_term], 36, 900)
